@@ -2605,6 +2605,10 @@ class SliceDataset(Dataset):
 
     def __getitem__(self, item):
         if isinstance(item, str):
+            if item not in self.keys():
+                # The key may exist in the input dataset, but it is not part of
+                # this selection.
+                raise KeyErrorCloseMatches(item, self.keys())
             return self.input_dataset[item]
         elif isinstance(item, numbers.Integral):
             return self.input_dataset[self.slice[item]]
